@@ -334,6 +334,8 @@ def conc_cast(v, frm, to):
             return 0
         bits = INT_BITS[to]
         lo, hi = (-(1 << (bits - 1)), (1 << (bits - 1)) - 1) if is_signed(to) else (0, (1 << bits) - 1)
+        if math.isinf(v):
+            return hi if v > 0 else lo
         r = int(v)  # truncation toward zero
         return max(lo, min(hi, r))
     return wrap(v, to)
